@@ -491,7 +491,7 @@ func visitInstr(fr *frame, instr ssa.Instruction) continuation {
 			panic(targetPanic{iface{i.runtimeErrorString, "assignment to entry in nil map"}})
 		}
 		key := fr.get(instr.Key)
-		if itf, ok := key.(iface); ok && itf.t != nil && !types.Comparable(itf.t) {
+		if itf, ok := key.(iface); ok && itf.t != nil && !comparableType(itf.t) {
 			panic(i.rtPanic("hash of unhashable type " + itf.t.String()))
 		}
 		m.insert(i, key, fr.get(instr.Value))
